@@ -162,8 +162,8 @@ def oracle_C03(ctx, cases, answers):
 
 # ---------------------------------------------------------------- C04
 
-KEY_RE = re.compile(r"^[a-z0-9._-]+$")
-TYPE_RE = re.compile(r"^[a-z0-9.+-]+$")
+KEY_RE = re.compile(r"^[a-z0-9._-]+\Z")
+TYPE_RE = re.compile(r"^[a-z0-9.+-]+\Z")
 
 
 def checksum_ok(val):
@@ -175,7 +175,7 @@ def checksum_ok(val):
         alg, hexd = e.rsplit(":", 1)
         if re.search(r"[A-Z]", e):
             return "ASCII upper-case letter in %r" % e
-        if len(hexd) % 2 != 0 or not re.match(r"^[0-9a-f]*$", hexd):
+        if len(hexd) % 2 != 0 or not re.match(r"^[0-9a-f]*\Z", hexd):
             return "hex digits %r not an even number of hex digits" % hexd
         algs.append(alg.encode("utf-8"))
     for x, y in zip(algs, algs[1:]):
@@ -358,8 +358,8 @@ def oracle_C08(ctx, cases, answers):
 
 # ---------------------------------------------------------------- C09
 
-VALID_KEY = re.compile(r"^[A-Za-z0-9._-]+$")
-VALID_TYPE = re.compile(r"^[A-Za-z0-9.+-]+$")
+VALID_KEY = re.compile(r"^[A-Za-z0-9._-]+\Z")
+VALID_TYPE = re.compile(r"^[A-Za-z0-9.+-]+\Z")
 TYPED_KEYS = ["platform", "classifier", "type", "download_url", "file_name", "repository_url", "vcs_url", "arch", "repository_url"]   # 7, 8: user-defined keys "Arch", "Repository_URL"; 9 ("a b") is invalid and only used in documented-panic cases
 
 
@@ -375,7 +375,7 @@ def checksum_text_to_canon(uni, text):
             return None
         entries[alg] = hexd
     for hexd in entries.values():
-        if len(hexd) % 2 != 0 or not re.match(r"^[0-9a-fA-F]*$", hexd):
+        if len(hexd) % 2 != 0 or not re.match(r"^[0-9a-fA-F]*\Z", hexd):
             return None
     return ",".join("%s:%s" % (a, ascii_lower(h)) for a, h in sorted(entries.items(), key=lambda e: e[0].encode("utf-8")))
 
@@ -588,7 +588,7 @@ def defects(s, uni):
     out = []
     if d["path"] == "":
         out.append("notype")
-    elif not re.match(r"^[A-Za-z0-9.+-]+$", d["ty"] or ""):
+    elif not re.match(r"^[A-Za-z0-9.+-]+\Z", d["ty"] or ""):
         out.append("badtype")
     if d["name"] is None and d["path"] != "":
         out.append("noname")
@@ -625,7 +625,7 @@ def defects(s, uni):
                 out.append("qual-noeq")
                 continue
             k, v = it.split("=", 1)
-            if not re.match(r"^[A-Za-z0-9._-]+$", k):
+            if not re.match(r"^[A-Za-z0-9._-]+\Z", k):
                 out.append("qual-badkey")
                 continue
             x = pct_decode_strict(v)
@@ -907,7 +907,7 @@ class RefCksum:
     def text(self):
         """None = error"""
         for h_ in self.m.values():
-            if len(h_.encode()) % 2 != 0 or not re.match(r"^[0-9a-fA-F]*$", h_):
+            if len(h_.encode()) % 2 != 0 or not re.match(r"^[0-9a-fA-F]*\Z", h_):
                 return None
         return ",".join("%s:%s" % (a, ascii_lower(h_)) for a, h_ in sorted(self.m.items(), key=lambda e: e[0].encode("utf-8")))
 
@@ -941,7 +941,7 @@ class RefCksum:
             v = self.m.get(u(1))
             if v is None:
                 return "~"
-            if len(v.encode()) % 2 != 0 or not re.match(r"^[0-9a-fA-F]*$", v):
+            if len(v.encode()) % 2 != 0 or not re.match(r"^[0-9a-fA-F]*\Z", v):
                 return "ERR:hex"
             return "OK:" + (ascii_lower(v) or "-")
         if n == "getraw":
@@ -1053,7 +1053,7 @@ def oracle_C14(ctx, cases, answers):
                 continue
             if convs:
                 arg = unhx(convs[0][5:])
-                if not re.match(r"^[A-Za-z0-9.+-]+$", arg):
+                if not re.match(r"^[A-Za-z0-9.+-]+\Z", arg):
                     v.append((i, "conversion called with the invalid type string %r" % arg))
                     continue
                 if d is None or arg != d["ty"]:
